@@ -626,9 +626,9 @@ class Interp:
     def _keep(self, v):
         self.__dict__.setdefault("_alive", []).append(v)
 
-    def comp_iter(self, gens, fr, body):
+    def comp_iter(self, gens, fr, body, first_iter=None):
         g = gens[0]
-        it = self.ev(g.iter, fr)
+        it = first_iter[0] if first_iter is not None else self.ev(g.iter, fr)
         if isinstance(it, Sym):
             raise Undecided("comprehension over symbolic iterable")
         for x in self.iterate(it):
@@ -648,6 +648,18 @@ class Interp:
         return v
 
     def ex_ListComp(self, e, fr):
+        handler = getattr(self, "genexp_handler", None)
+        if handler is not None and len(e.generators) == 1 and not e.generators[0].ifs:
+            # [elt for x in <symbolic iterable>]: the same inductive rule as for the generator expression; the result is
+            # a symbolic sequence (any later mutation of it is outside the subset)
+            g0 = e.generators[0]
+            itv = self.ev(g0.iter, fr)            # evaluated exactly once (it may read from the stream)
+            if isinstance(itv, Sym):
+                return handler(self, _LazyGen(self, e, fr), (itv, g0.target, e.elt))
+            sub = Frame(fr.fn, dict(fr.env)); sub.globals = fr.globals
+            v = list(self.comp_iter(e.generators, sub, lambda: self.ev(e.elt, sub), first_iter=(itv,)))
+            self.fresh_ids.add(id(v)); self._keep(v)
+            return v
         sub = Frame(fr.fn, dict(fr.env)); sub.globals = fr.globals
         v = list(self.comp_iter(e.generators, sub, lambda: self.ev(e.elt, sub)))
         self.fresh_ids.add(id(v)); self._keep(v)
